@@ -22,8 +22,8 @@
 (*  spawn   go copy entries, config, layers   bpost2  BlobPut: POST upload  *)
 (*  wait1   non-blocking early-abort loop     bput    PUT (monolithic)      *)
 (*  refs    ReferrerList: API [refs2: tag]    bpatch  chunked fall-back PATCH *)
-(*  dtags   lock opt.mu [dtagsR: TagList      bput2   chunked final PUT     *)
-(*          once, unlock; dtags2: spawn]                                    *)
+(*  dtags   lock opt.mu [dtagsR: TagList      brewind rewind = GET(source) again *)
+(*          once, unlock; dtags2: spawn]      bput2   chunked final PUT     *)
 (*  wait2   blocking wait for all children    bdel    cancel upload (best effort) *)
 (*  put     ManifestPut [fbget, fbput:                                      *)
 (*          referrerPut under muRefTag]                                     *)
@@ -31,8 +31,9 @@
 (*                                                                         *)
 (* Error handling as written: the first child error cancels the task's     *)
 (* context; "context canceled" is replaced by the next child result in     *)
-(* search of a better message (FixWaitErr = FALSE: even by a nil result,   *)
-(* as the code does today; TRUE: only by an error, the proposed repair);   *)
+(* search of a better message (FixWaitErr = TRUE: only by an error, the    *)
+(* code since commit 7bc56ce; FALSE: even by a nil result, as found:       *)
+(* findings/C04-1, kept as a switch for the expected-counterexample run);  *)
 (* waiters on the seen map inherit the first copier's error; failed seen   *)
 (* entries are forgotten; ReferrerList / TagList errors return at once     *)
 (* without draining the children (which then run on as orphans with a      *)
@@ -65,14 +66,14 @@
 (***************************************************************************)
 EXTENDS Naturals, Sequences, FiniteSets, TLC, CopyShapes
 CONSTANTS Confs,        \* set of configuration records (see ImageCopyMC)
-          FixWaitErr,   \* FALSE: wait loops as written today; TRUE: with findings/C04-1.patch
+          FixWaitErr,   \* TRUE: wait loops as repaired by 7bc56ce (findings/C04-1.patch); FALSE: as found before
           Reduce        \* TRUE: partial-order reduction for fault-free configurations (see Allowed)
 VARIABLES conf, tasks, seen, tb, tm, tt, fbl, written, tagMoved, lateWrite,
           getc, comc, nBlobReq, nManPut, nWrites, faults, ctxC, crashed,
-          refFeat, tagListed, refLock, omu, slots, finals, ret
+          refFeat, tagListed, refLock, omu, slots, finals, ret, retries
 vars == <<conf, tasks, seen, tb, tm, tt, fbl, written, tagMoved, lateWrite,
           getc, comc, nBlobReq, nManPut, nWrites, faults, ctxC, crashed,
-          refFeat, tagListed, refLock, omu, slots, finals, ret>>
+          refFeat, tagListed, refLock, omu, slots, finals, ret, retries>>
 
 \* ------------------------------------------------------------ configuration
 Sh == Shapes[conf.shape]
@@ -143,7 +144,7 @@ Init == /\ conf \in Confs
         /\ getc = [n \in Shapes[conf.shape].blobs |-> 0] /\ comc = [n \in Shapes[conf.shape].blobs |-> 0]
         /\ nBlobReq = 0 /\ nManPut = 0 /\ nWrites = 0 /\ faults = 0
         /\ ctxC = FALSE /\ crashed = FALSE /\ refFeat = "unknown" /\ tagListed = FALSE
-        /\ refLock = NoTask /\ omu = NoTask /\ slots = 0 /\ finals = <<>> /\ ret = ""
+        /\ refLock = NoTask /\ omu = NoTask /\ slots = 0 /\ finals = <<>> /\ ret = "" /\ retries = 0
 
 \* ---------------------------------------------------------- small operators
 ErrOf(i) == IF EffCancel(i) THEN "canceled" ELSE "other"
@@ -177,7 +178,7 @@ FinishWith(U, i, r) ==
 
 Obs == <<tb, tm, tt, fbl, written, tagMoved, lateWrite>>       \* target store and its history flags
 Cnt == <<getc, comc, nBlobReq, nManPut, nWrites>>
-Env == <<conf, ctxC, crashed, refFeat, tagListed, refLock, omu, finals, ret>>
+Env == <<conf, ctxC, crashed, refFeat, tagListed, refLock, omu, finals, ret, retries>>
 
 \* ------------------------------------------------------------ the seen map
 SeenEntry(n, tg) == {e \in seen : e.node = n /\ e.tag = tg}
@@ -322,7 +323,7 @@ Consume(i, c) ==
                             ![i].canc = @ \/ (tasks[i].err = "none" /\ ChildErr(c) # "none")]
   /\ finals' = IF tasks[c].res = "loop" /\ tasks[c].via \in {"ref", "dtag"}
                THEN Append(finals, <<tasks[c].node, tasks[c].tag>>) ELSE finals
-  /\ UNCHANGED <<seen, slots, Obs, Cnt, conf, ctxC, crashed, refFeat, tagListed, refLock, omu, ret, faults>>
+  /\ UNCHANGED <<seen, slots, Obs, Cnt, conf, ctxC, crashed, refFeat, tagListed, refLock, omu, ret, faults, retries>>
 
 Wait1Go(i) ==      \* "default: done = true" (no result ready) or all children reported nil
   /\ tasks[i].pc = "wait1" /\ tasks[i].err = "none"
@@ -357,7 +358,7 @@ MRefs(i) ==
              /\ tasks' = [tasks EXCEPT ![i].pc = "refs2"]
              /\ refFeat' = (IF refFeat = "unknown" THEN "no" ELSE refFeat)
              /\ faults' = faults + Cost(i) /\ UNCHANGED <<seen, slots>>
-  /\ UNCHANGED <<Obs, Cnt, conf, ctxC, crashed, tagListed, refLock, omu, finals, ret>>
+  /\ UNCHANGED <<Obs, Cnt, conf, ctxC, crashed, tagListed, refLock, omu, finals, ret, retries>>
 
 MRefs2(i) ==       \* referrerListByTag: GET sha256-<hex>; not found = no referrers
   LET t == tasks[i] IN
@@ -379,14 +380,14 @@ MDTags(i) ==
           /\ IF tagListed \/ SrcIsDir
              THEN tasks' = [tasks EXCEPT ![i].pc = "dtags2"] /\ tagListed' = TRUE /\ UNCHANGED omu
              ELSE tasks' = [tasks EXCEPT ![i].pc = "dtagsR"] /\ omu' = i /\ UNCHANGED tagListed
-  /\ UNCHANGED <<seen, slots, faults, Obs, Cnt, conf, ctxC, crashed, refFeat, refLock, finals, ret>>
+  /\ UNCHANGED <<seen, slots, faults, Obs, Cnt, conf, ctxC, crashed, refFeat, refLock, finals, ret, retries>>
 MDTagsR(i) ==
   /\ tasks[i].pc = "dtagsR" /\ omu = i
   /\ \/ /\ ~EffCancel(i) /\ tasks' = [tasks EXCEPT ![i].pc = "dtags2"] /\ tagListed' = TRUE
         /\ UNCHANGED <<seen, slots, faults>>
      \/ /\ CanFail(i) /\ FinishWith(tasks, i, ErrOf(i)) /\ faults' = faults + Cost(i) /\ UNCHANGED tagListed
   /\ omu' = NoTask
-  /\ UNCHANGED <<Obs, Cnt, conf, ctxC, crashed, refFeat, refLock, finals, ret>>
+  /\ UNCHANGED <<Obs, Cnt, conf, ctxC, crashed, refFeat, refLock, finals, ret, retries>>
 MDTags2(i) ==
   LET t == tasks[i]
       ds == SeqOfSet({d \in DTagsOf(t.node) : ~(d[3] /\ t.rtag)})
@@ -439,7 +440,7 @@ MFbGet(i) ==       \* referrerPut: lock muRefTag, GET the fall-back tag
   /\ \/ /\ ~EffCancel(i) /\ tasks' = [tasks EXCEPT ![i].pc = "fbput"] /\ refLock' = i
         /\ UNCHANGED <<seen, slots, faults>>
      \/ /\ CanFail(i) /\ Finish(i, ErrOf(i)) /\ faults' = faults + Cost(i) /\ refLock' = NoTask
-  /\ UNCHANGED <<Obs, Cnt, conf, ctxC, crashed, refFeat, tagListed, omu, finals, ret>>
+  /\ UNCHANGED <<Obs, Cnt, conf, ctxC, crashed, refFeat, tagListed, omu, finals, ret, retries>>
 MFbPut(i) ==       \* PUT the updated referrers index under the fall-back tag, unlock
   LET t == tasks[i]
       s == SubjectOf(t.node)
@@ -450,7 +451,7 @@ MFbPut(i) ==       \* PUT the updated referrers index under the fall-back tag, u
            /\ Finish(i, "ok") /\ UNCHANGED <<faults, tb, tm, written, tagMoved, lateWrite, getc, comc, nBlobReq, nManPut>>
         \/ /\ CanFail(i) /\ Finish(i, ErrOf(i)) /\ faults' = faults + Cost(i) /\ UNCHANGED <<Obs, Cnt>>
      /\ refLock' = NoTask
-     /\ UNCHANGED <<conf, ctxC, crashed, refFeat, tagListed, omu, finals, ret>>
+     /\ UNCHANGED <<conf, ctxC, crashed, refFeat, tagListed, omu, finals, ret, retries>>
 
 \* ---------------------------------------------------------------- blob task
 BStart(i) ==
@@ -540,10 +541,21 @@ BPut(i) ==
           \/ /\ EffCancel(i) /\ Finish(i, "canceled") /\ UNCHANGED <<faults, Cnt, Obs>>
      ELSE \/ /\ ~EffCancel(i) /\ Commit(i) /\ Finish(i, "ok") /\ UNCHANGED faults
           \/ /\ EffCancel(i) /\ Finish(i, "canceled") /\ UNCHANGED <<faults, Cnt, Obs>>
-          \/ /\ ~EffCancel(i) /\ CanFault                       \* full PUT failed: seek back, go chunked
-             /\ tasks' = [tasks EXCEPT ![i].pc = "bpatch"] /\ faults' = faults + 1
+          \/ /\ ~EffCancel(i) /\ CanFault                       \* full PUT failed: rewind the source, go chunked
+             /\ tasks' = [tasks EXCEPT ![i].pc = "brewind"] /\ faults' = faults + 1
              /\ UNCHANGED <<seen, slots, Cnt, Obs>>
   /\ UNCHANGED Env
+\* rdrSeek.Seek(0): for a registry source reghttp re-issues the GET; if that fails the upload is
+\* cancelled and the error of the failed PUT is returned
+BRewind(i) ==
+  LET t == tasks[i] IN
+  /\ t.pc = "brewind"
+  /\ IF t.inl \/ SrcIsDir
+     THEN tasks' = [tasks EXCEPT ![i].pc = "bpatch"] /\ UNCHANGED <<faults, Cnt>>
+     ELSE \/ /\ ~EffCancel(i) /\ tasks' = [tasks EXCEPT ![i].pc = "bpatch"]
+             /\ getc' = Bump(getc, t.node) /\ BlobReq /\ UNCHANGED <<faults, comc, nManPut, nWrites>>
+          \/ /\ CanFail(i) /\ tasks' = [tasks EXCEPT ![i].pc = "bdel"] /\ faults' = faults + Cost(i) /\ UNCHANGED Cnt
+  /\ UNCHANGED <<seen, slots, Obs, Env>>
 BPatch(i) ==
   /\ tasks[i].pc = "bpatch"
   /\ \/ /\ ~EffCancel(i) /\ tasks' = [tasks EXCEPT ![i].pc = "bput2"]
@@ -565,21 +577,21 @@ BDel(i) ==         \* blobUploadCancel, result ignored
 
 \* a transient fault (5xx/429, connection reset, truncated body): reghttp repeats the request
 ReqPcs == {"headT", "headT2", "headS", "headS2", "getS", "refs", "refs2", "dtagsR", "put", "fbget", "fbput",
-           "bhead", "bmount", "bmdel", "bget", "bpost", "bpost2", "bput", "bpatch", "bput2", "bdel"}
+           "bhead", "bmount", "bmdel", "bget", "bpost", "bpost2", "bput", "brewind", "bpatch", "bput2", "bdel"}
 \* does task i talk to a registry at its current pc (a layout side has no requests)
-OnSrcSide(pc) == pc \in {"headS", "headS2", "getS", "refs", "refs2", "dtagsR", "bget"}
+OnSrcSide(pc) == pc \in {"headS", "headS2", "getS", "refs", "refs2", "dtagsR", "bget", "brewind"}
 IsRequest(i) ==
   LET t == tasks[i] IN
   /\ t.pc \in ReqPcs
   /\ IF OnSrcSide(t.pc) THEN ~SrcIsDir ELSE ~TgtIsDir
   /\ ~(t.pc = "bhead" /\ SameRepo)
-  /\ ~(t.pc \in {"getS", "bget"} /\ t.inl)
+  /\ ~(t.pc \in {"getS", "bget", "brewind"} /\ t.inl)
   /\ ~(t.pc = "refs" /\ (~conf.referrers \/ refFeat = "no"))
   /\ ~(t.pc = "fbget" /\ refLock # NoTask)
 Retry(i) ==
   /\ IsRequest(i) /\ ~EffCancel(i) /\ CanFault
-  /\ faults' = faults + 1
-  /\ UNCHANGED <<tasks, seen, slots, Obs, Cnt, Env>>
+  /\ faults' = faults + 1 /\ retries' = retries + 1
+  /\ UNCHANGED <<tasks, seen, slots, Obs, Cnt, conf, ctxC, crashed, refFeat, tagListed, refLock, omu, finals, ret>>
 
 \* ------------------------------------------------- top level and environment
 TopDone == tasks[1].pc = "done"
@@ -597,20 +609,20 @@ Return ==
      THEN /\ tasks' = Append(tasks, Task("man", finals[1][1], NoTask, "start", finals[1][2], finals[1][2] = "", "final", FALSE))
           /\ finals' = Tail(finals) /\ ret' = ""
      ELSE ret' = "ok" /\ UNCHANGED <<tasks, finals>>
-  /\ UNCHANGED <<seen, slots, Obs, Cnt, conf, ctxC, crashed, refFeat, tagListed, refLock, omu, faults>>
+  /\ UNCHANGED <<seen, slots, Obs, Cnt, conf, ctxC, crashed, refFeat, tagListed, refLock, omu, faults, retries>>
 
 Cancel == /\ conf.cancel /\ ~ctxC /\ ret = ""
           /\ ctxC' = TRUE
-          /\ UNCHANGED <<tasks, seen, slots, Obs, Cnt, conf, crashed, refFeat, tagListed, refLock, omu, finals, ret, faults>>
+          /\ UNCHANGED <<tasks, seen, slots, Obs, Cnt, conf, crashed, refFeat, tagListed, refLock, omu, finals, ret, faults, retries>>
 Crash == /\ conf.crash /\ ret = ""
          /\ crashed' = TRUE
-         /\ UNCHANGED <<tasks, seen, slots, Obs, Cnt, conf, ctxC, refFeat, tagListed, refLock, omu, finals, ret, faults>>
+         /\ UNCHANGED <<tasks, seen, slots, Obs, Cnt, conf, ctxC, refFeat, tagListed, refLock, omu, finals, ret, faults, retries>>
 
 Step(i) == \/ MStart(i) \/ WSeen(i) \/ MHeadT(i) \/ MHeadT2(i) \/ MHeadS(i) \/ MHeadS2(i) \/ MSeenS(i)
            \/ MGetS(i) \/ MSeenG(i) \/ MSpawn(i) \/ Wait1Go(i) \/ WaitFail(i) \/ MRefs(i) \/ MRefs2(i)
            \/ MDTags(i) \/ MDTagsR(i) \/ MDTags2(i) \/ Wait2Done(i) \/ MPut(i) \/ MFbGet(i) \/ MFbPut(i)
            \/ BStart(i) \/ BHead(i) \/ BAcq(i) \/ BMount(i) \/ BMDel(i) \/ BGet(i) \/ BPost(i) \/ BPost2(i)
-           \/ BPut(i) \/ BPatch(i) \/ BPut2(i) \/ BDel(i) \/ Retry(i)
+           \/ BPut(i) \/ BRewind(i) \/ BPatch(i) \/ BPut2(i) \/ BDel(i) \/ Retry(i)
            \/ \E c \in Ids : Consume(i, c)
 \* Partial-order reduction by hand, for fault-free configurations (no fault budget, no Cancel,
 \* unbounded throttle; ImageCopyMC asserts this).  There no request fails and no context is ever
